@@ -89,7 +89,7 @@ func c27HasEmptyLeadingSpan(h *gen.Hist) bool {
 	return h != nil && ((len(h.PS) > 0 && h.PS[0].Len == 0) || (len(h.NS) > 0 && h.NS[0].Len == 0))
 }
 
-var c27Spacings = []int64{1000, 5000, 15000, 15000, 30000, 60000, 60000, 300000}
+var c27Spacings = []int64{1000, 5000, 15000, 15000, 15000, 30000, 30000, 60000, 60000, 300000}
 
 func c27GenValue(t *rapid.T, prev float64, special bool) float64 {
 	switch rapid.IntRange(0, 11).Draw(t, "vclass") {
@@ -147,8 +147,11 @@ func c27GenData(t *rapid.T, o c27DataOpts) c27Data {
 		}
 		spacing := rapid.SampledFrom(c27Spacings).Draw(t, "spacing")
 		irregular := rapid.IntRange(0, 2).Draw(t, "irregular")
-		ns := rapid.IntRange(0, 80).Draw(t, "nsamples")
-		ts := o.MinT + rapid.Int64Range(0, (o.MaxT-o.MinT)/3).Draw(t, "t0")
+		ns := rapid.IntRange(0, 100).Draw(t, "nsamples")
+		ts := o.MinT + rapid.Int64Range(0, (o.MaxT-o.MinT)/6).Draw(t, "t0")
+		if rapid.Bool().Draw(t, "t0aligned") {
+			ts = ts / spacing * spacing // samples on multiples of the spacing: window edges get hit exactly
+		}
 		var st int64
 		stMode := 0
 		if o.ST {
